@@ -275,6 +275,46 @@ def _tombstone_rule(chk, prog):
         raise AnalysisBroken("only %d slot clearing stores found" % n)
 
 
+def _probesym_rule(chk, prog):
+    """A hash lookup that starts at the key's home bucket walks [home, capacity) and then wraps to [0, home).  The two
+    loops are one probe sequence cut in two, so they must treat a bucket identically: same tests in the same order, same
+    results.  A tombstone rule or an early return present in one half only makes keys whose chain crosses the end of
+    the array unreachable."""
+    rule = "C04-PROBESYM"
+    chk.rule(rule, "the two halves of every wrap-around probe loop (home..capacity, then 0..home) have identical bodies")
+    n = 0
+    for fn in prog.all_funcs():
+        if fn.tu.name not in ("util.c", "struct.c", "table.c", "symcache.c"):
+            continue
+        fors = sorted([x for x in fn.nodes if x.k == "for" and x.kids[0] is not None and x.kids[1] is not None], key=lambda x: x.ln)
+
+        def init(x):
+            for y in x.kids[0].walk():
+                if y.k == "asg" and y.op == "=":
+                    return strip_casts(y.kids[1])
+                if y.k == "vardecl" and y.kids:
+                    return strip_casts(y.kids[0])
+            return None
+        for a, b in zip(fors, fors[1:]):
+            ia, ib = init(a), init(b)
+            if ia is None or ib is None or a.parent is not b.parent:
+                continue
+            cb = strip_casts(b.kids[1])
+            if ib.v == 0 and ia.v is None and cb.k == "bin" and cb.op == "<" and strip_casts(cb.kids[1]).text() == ia.text():
+                n += 1
+                chk.instance(rule)
+                chk.analysed(fn)
+                def sig(x):
+                    return (x.k, x.d.get("op"), x.d.get("n"), x.d.get("field"), x.v, tuple(sig(k) for k in x.kids))
+                if sig(a.kids[3]) == sig(b.kids[3]):
+                    chk.ok(rule, "%s: both halves of the probe at %s / %s treat a bucket the same way" % (fn.name, a.loc, b.loc))
+                else:
+                    chk.violation(rule, fn.tu.name, fn.name, "halves", b.loc,
+                                  "the wrap-around half of the probe loop (%s) differs from the first half (%s): a key whose collision "
+                                  "chain crosses the end of the bucket array is looked up by different rules than one that does not" % (b.loc, a.loc))
+    chk.floor(rule, 2, n)
+
+
 def run(chk):
     prog = Program.load("default")
     cg = CallGraph(prog)
@@ -287,6 +327,7 @@ def run(chk):
     _tombstone_rule(chk, prog)
     _index_rule(chk, prog)
     _setcount_rule(chk, prog)
+    _probesym_rule(chk, prog)
 
 
 def _setcount_rule(chk, prog):
